@@ -1339,7 +1339,7 @@ func main() {
 		},
 		Cases: func(tier string) int {
 			if tier == "thorough" {
-				return 40000
+				return 10000
 			}
 			return 1000
 		},
